@@ -22,6 +22,7 @@ func c16StringProducers(s string) []c16Producer {
 		{"function-return", "mkv()", Fun("mkv", "", " "+Ret(q)+" ") + "\n", ""},
 		{"parameter", "idf(" + q + ")", "", ""},
 		{"function-with-statements", "mkw()", Fun("mkw", "", " "+Var("t", "0")+" t = t + 1; idf(t); [t]; "+Ret(q)+" ") + "\n", ""},
+		{"parameter-named-like-its-function", "own(" + q + ")", Fun("own", "own", " "+Ret("own")+" ") + "\n", ""},
 		{"input", BI("input"), "", s + "\n"},
 		{"property-assignment", "pa.j", Var("pa", "{}") + "\npa.j = " + q + ";\n", ""},
 		{"values-listing", BI("values", "{k: "+q+"}") + "[0]", "", ""},
@@ -58,6 +59,7 @@ func c16NumberProducers(n int) []c16Producer {
 		{"pow", BI("pow", N, "1"), "", ""},
 		{"function-return", "mkv()", Fun("mkv", "", " "+Ret(N)+" ") + "\n", ""},
 		{"function-with-statements", "mkw()", Fun("mkw", "", " "+Var("t", "0")+" t = t + 1; idf(t); [t]; "+Ret(N)+" ") + "\n", ""},
+		{"parameter-named-like-its-function", "own(" + N + ")", Fun("own", "own", " "+Ret("own")+" ") + "\n", ""},
 		{"parameter", "idf(" + N + ")", "", ""},
 		{"array-element", "[" + N + "][0]", "", ""},
 		{"object-property", "({k: " + N + "}).k", "", ""},
@@ -260,6 +262,25 @@ func c16Run(c *Ctx) {
 	}
 	vals = append(vals, val{"number", "1.5", c16FractionProducers("1.5", "0.75")}, val{"number", "0.5", c16FractionProducers("0.5", "0.25")}, val{"number", "2.25", c16FractionProducers("2.25", "1.125")})
 	c16LongRun(c, pre)
+	// a last input line without a newline is still that line, whatever its length
+	for _, s := range []string{"5", "y", "ab", "\u0995", "12.5", " ", "0"} {
+		q := `"` + strings.TrimSpace(s) + `"`
+		for ci, body := range []string{Print(`"[" + %v + "]"`), Print("%v == " + q), Print("%v + %v"), IfElse("%v", Print(`"then"`), Print(`"else"`)), Print("[%v]")} {
+			lit := pre + strings.ReplaceAll(body, "%v", q) + "\n"
+			inp := pre + strings.ReplaceAll(body, "%v", BI("input")) + "\n"
+			n := strings.Count(inp, BI("input"))
+			sin := strings.Repeat(s+"\n", n-1) + s // the last line is unterminated
+			cs := &Case{Gen: "input-endings", Src: lit, Alt: []string{inp}, X: map[string]string{"kind": "string", "context": fmt.Sprintf("ending #%d", ci), "stdins": "\x1f" + sin, "producers": "literal,input-last-line-unterminated"}}
+			if c.Mine() {
+				c16Judge(c, cs)
+			}
+			if c.Mine() {
+				cc := *cs
+				cc.Mode = "cli"
+				c16Judge(c, &cc)
+			}
+		}
+	}
 	k := 0
 	for ci, ctx := range ctxs {
 		for _, v := range vals {
